@@ -21,11 +21,46 @@ inductive Err where
   | exc (id : Nat)          -- the exception object raised by the scripted source `id`
   | wrapped (id : Nat)      -- EdzedCircuitError made by `SBlock.event`, `__cause__` = exc id
   | reported (id : Nat)     -- EdzedCircuitError made by the ControlBlock 'abort' event, `__cause__` = exc id
+  | notInit                 -- EdzedCircuitError("<block>: not initialized") raised by `_init_sblocks_sync_2`
   deriving DecidableEq, Repr, Inhabited
 
 def Err.isCancel : Err → Bool
   | .cancelled _ => true
   | _ => false
+
+/-- the exception families `SBlock.event` can tell apart when a handler call ends with an exception
+    (`except EdzedUnknownEvent: raise` / `except Exception` + the depth of the traceback) -/
+inductive Family where
+  | generic        -- any other Exception (RuntimeError, ValueError, …)
+  | circuitError   -- EdzedCircuitError
+  | invalidState   -- EdzedInvalidState
+  | unknownEvent   -- EdzedUnknownEvent
+  | typeError      -- TypeError
+  deriving DecidableEq, Repr, Inhabited
+
+/-- what can go wrong with one event delivered to a block -/
+inductive Fault where
+  | inHandler (f : Family)   -- the handler's own code raises an exception of family `f`
+  | wrongParams              -- the call of the handler itself fails (missing / unexpected parameter): TypeError
+                             -- with a traceback of ONE level
+  | unknownType              -- no handler: the default `_event()` raises EdzedUnknownEvent
+  | nested                   -- the handler sends another event, and THAT one is of an unknown type:
+                             -- EdzedUnknownEvent travels through the handler
+  deriving DecidableEq, Repr, Inhabited
+
+/-- what `SBlock.event` sees of a fault: the exception's family and whether the traceback is deeper than
+    the call itself -/
+def Fault.seen : Fault → Family × Bool
+  | .inHandler f => (f, true)
+  | .wrongParams => (.typeError, false)
+  | .unknownType => (.unknownEvent, true)
+  | .nested => (.unknownEvent, true)
+
+/-- the classification made by `SBlock.event` (total): `abort()` is called -- the fault is FATAL -- iff the
+    exception is not an EdzedUnknownEvent and was raised inside the handler -/
+def fatalSeen (x : Family × Bool) : Bool := x.1 != .unknownEvent && x.2
+
+def Fault.fatal (f : Fault) : Bool := fatalSeen f.seen
 
 /-- where the simulation task is -/
 inductive Phase where
@@ -39,7 +74,8 @@ inductive Phase where
 /-- evaluation that will raise as soon as the simulator evaluates it -/
 inductive Armed where
   | calc (id : Nat)          -- a CBlock function raising exc id
-  | calcHandler (id : Nat)   -- a CBlock whose on_output event reaches a handler raising exc id
+  | calcHandler (id : Nat) (f : Family)
+                             -- a CBlock whose on_output event reaches a handler raising exc id (of family f)
   deriving DecidableEq, Repr, Inhabited
 
 /-- something scheduled to run in the next iteration of the event loop -/
@@ -64,6 +100,9 @@ structure St where
   supDone : List (Nat × Option Nat) := []   -- finished supporting coroutines: (index, exception id)
   runWaiting : Bool := false            -- run() is (still) blocked in asyncio.wait
   runMode : Bool := false
+  earlyFail : Bool := false             -- a synchronous initialisation routine has failed EARLY (reached through an
+                                        -- event during the start-up, the sender swallowed the exception): the step is
+                                        -- marked as failed and never attempted again, the block stays uninitialised
   deriving Repr, Inhabited
 
 /-- `Circuit.is_ready()` -/
@@ -101,7 +140,11 @@ inductive Op where
   | start (initErr : Option Nat)  -- the task begins to execute run_forever; `initErr`: a synchronous
                                   -- initialisation routine raises exc id
   | abortCall (e : Err)           -- `circuit.abort(e)`
-  | handlerErr (id : Nat)         -- external event whose handler raises exc id *inside* the handler
+  | handlerErr (id : Nat) (f : Family)
+                                  -- external event whose handler raises exc id (of family f) *inside* the handler
+  | earlyInitFail (id : Nat)      -- an event sent DURING the start-up (the circuit accepts events as soon as the task
+                                  -- has begun) reaches a block that is not initialised yet; its early initialisation
+                                  -- raises exc id in a synchronous routine; the sender catches the exception
   | paramErr                      -- external event with a missing parameter (TypeError from the call itself)
   | unknownEvt                    -- external event of a type the block does not know
   | nestedUnknown (outChanged : Bool)
@@ -143,10 +186,13 @@ def wakeStep (s : St) : Wake → St × List Err
         (({ s with mustCancel := false }.caught (.cancelled 0)).leaveTry, [.cancelled 0])
       else match s.armed with
         | some (.calc id) => ((s.caught (.exc id)).leaveTry, [.exc id])
-        | some (.calcHandler id) =>
-          -- SBlock.event: abort(wrapped) then re-raise; the exception leaves eval_block/_simulate
-          let s1 := s.abort (.wrapped id)
-          ((s1.caught (.exc id)).leaveTry, [.wrapped id, .exc id])
+        | some (.calcHandler id f) =>
+          -- SBlock.event: abort(wrapped) -- unless the handler's exception is an EdzedUnknownEvent -- then re-raise;
+          -- the exception leaves eval_block/_simulate and ends the simulation task in any case
+          if (Fault.inHandler f).fatal then
+            let s1 := s.abort (.wrapped id)
+            ((s1.caught (.exc id)).leaveTry, [.wrapped id, .exc id])
+          else ((s.caught (.exc id)).leaveTry, [.exc id])
         | none => (s, [])
     | .sleep0 =>
       -- a pending cancellation is swallowed; blocks are stopped
@@ -173,10 +219,19 @@ def step (s : St) : Op → St × Out
       match s.error, initErr with
       | some _, _ => (s.leaveTry, {})                         -- `raise self._error`: stop before start
       | none, some id => ((s.caught (.exc id)).leaveTry, { dels := [.exc id] })
-      | none, none => (s, {})
+      | none, none =>
+        -- the failed early step is not attempted again: the block is still uninitialised at the end of the start-up
+        if s.earlyFail then ((s.caught .notInit).leaveTry, { dels := [.notInit] }) else (s, {})
   | .abortCall e => (s.abort e, { dels := [e] })
-  | .handlerErr id =>
-    if s.ready then (s.abort (.wrapped id), { dels := [.wrapped id], reply := .raised (.exc id) })
+  | .handlerErr id f =>
+    if s.ready then
+      if (Fault.inHandler f).fatal then (s.abort (.wrapped id), { dels := [.wrapped id], reply := .raised (.exc id) })
+      else (s, { reply := .raised (.exc id) })     -- EdzedUnknownEvent: re-raised to the caller only
+    else (s, { reply := .invalidState })
+  -- the exception of the init routine leaves `SBlock.event` BEFORE the handler's try block: no abort(); the task
+  -- has begun (the harness logs `start` afterwards), nothing is delivered now
+  | .earlyInitFail id =>
+    if s.phase == .notStarted && s.error.isNone then ({ s with earlyFail := true }, { reply := .raised (.exc id) })
     else (s, { reply := .invalidState })
   | .paramErr => (s, { reply := if s.ready then .typeError else .invalidState })
   | .unknownEvt => (s, { reply := if s.ready then .unknownEvent else .invalidState })
@@ -225,7 +280,7 @@ def waitInitReply (s : St) (initErr : Option Nat) : Reply :=
   match s.error, initErr with
   | some _, _ => .attributeError
   | none, some _ => .invalidState
-  | none, none => .ok
+  | none, none => if s.earlyFail then .invalidState else .ok
 
 /-- `await simtask` / `run_forever()` raises `_error` -/
 def runForeverRaises (s : St) : Option Err := s.error
